@@ -1,0 +1,46 @@
+//go:build verif
+
+package codegen
+
+import "strings"
+
+// Verification hook (build tag `verif`, add-only) for property C16: drives a
+// fresh HLSL namer (newNamer) with a sequence of operations so that the
+// external harness can compare it with its formal model. Not part of the API.
+//
+//	"c" + label   namer.call(label)            -> the issued name
+//	"r" + label   namer.reserve(label)         -> ""
+//	"{"           namer.namespace(func() { … following ops up to the matching "}" … }) -> ""
+//	"}"           end of the namespace body    -> ""   (ignored when unmatched)
+//	"?prefixes"   -> strings.Join(namer.reservedPrefixes, ",")
+func VerifNamerRun(ops []string) []string {
+	n := newNamer()
+	out := make([]string, len(ops))
+	var run func(i int, nested bool) int
+	run = func(i int, nested bool) int {
+		for i < len(ops) {
+			op := ops[i]
+			switch {
+			case op == "{":
+				next := i + 1
+				n.namespace(func() { next = run(i+1, true) })
+				i = next
+				continue
+			case op == "}":
+				if nested {
+					return i + 1
+				}
+			case op == "?prefixes":
+				out[i] = strings.Join(n.reservedPrefixes, ",")
+			case strings.HasPrefix(op, "c"):
+				out[i] = n.call(op[1:])
+			case strings.HasPrefix(op, "r"):
+				n.reserve(op[1:])
+			}
+			i++
+		}
+		return i
+	}
+	run(0, false)
+	return out
+}
